@@ -3,12 +3,11 @@
 Correspondence of Model/Utf8.v + Model/Percent.v + Model/StatusWire.v with
   grpclib.metadata.encode_grpc_message / decode_grpc_message (urllib.parse.quote / unquote, CPython's UTF-8 codec),
   grpclib.server.Stream.send_trailing_metadata / __aexit__   (trailers seen by a scripted h2 peer),
-  grpclib.client.Stream._process_grpc_status / _raise_for_grpc_status (pure call and through a real Channel),
+  the client's status processing (observed through a real Channel behind a scripted server, public call API only),
 and the direct oracle: what a handler reports is what the client's GRPCError carries (real client <-> real
 server on the virtual loop, ProtoStatusDetailsCodec on both sides, google.rpc details of known and unknown types).
 """
 import logging
-import types
 import urllib.parse
 
 from harness import vloop, wire
@@ -221,11 +220,9 @@ def gen_b64ish(rng):
 
 
 def gen_client_headers(rng):
-    """the header list _process_grpc_status is given (already str): protocol headers, grpc-status in many spellings
-    or missing, grpc-message, details, duplicates, user metadata"""
+    """a trailers block for the client's status processing: grpc-status in many spellings or missing, grpc-message,
+    details, duplicates, user metadata"""
     hs = []
-    if rng.random() < 0.3:
-        hs += [(':status', '200'), ('content-type', 'application/grpc')]
     if rng.random() < 0.93:
         hs.append((K_STATUS, gen_status_value(rng)))
     if rng.random() < 0.7:
@@ -243,7 +240,8 @@ def gen_client_headers(rng):
         hs.append((K_DETAILS, gen_b64ish(rng)))
     if rng.random() < 0.2:
         rng.shuffle(hs)
-    return hs
+    # what travels through h2 is ASCII (non-ASCII bytes are the business of gen_receive_case)
+    return [(k, ''.join(ch for ch in v if ord(ch) < 128)) for k, v in hs]
 
 
 def _encodable(m):
@@ -427,10 +425,12 @@ def canon_client(fn):
     return ('status', st.value, None if msg is None else cpl(msg), det)
 
 
-def impl_process(codec_on, hs):
-    from grpclib.client import Stream
-    self = types.SimpleNamespace(_status_details_codec=raw_details_codec() if codec_on else None)
-    return canon_client(lambda: Stream._process_grpc_status(self, dict(hs)))
+def st_case(codec_on, hs, layout='trailers'):
+    """a header list (str) for the client's status processing -> the same block sent by a scripted server to a real
+    Channel (the processing is observed through the public call API only)"""
+    hs = hs or [('x-none', '1')]          # the scripted h2 cannot emit an empty header block
+    return {'op': 'rcv', 'codec': codec_on, 'layout': layout, 'from': 'st',
+            'hs': [(k.encode('utf-8', 'replace'), v.encode('utf-8', 'replace')) for k, v in hs]}
 
 
 def parse_model_status(line):
@@ -571,15 +571,79 @@ def make_cutter(seed):
     return cutter
 
 
-def e2e(case):
-    """a handler reports (status, message, details) -- by raising GRPCError or by send_trailing_metadata -- through a
-    real Server protocol, a byte link with re-cut delivery and a real Channel; ProtoStatusDetailsCodec on both sides.
-    Returns the canonical observation at the client plus the bytes the two codecs saw."""
-    from grpclib.client import Channel, UnaryUnaryMethod, UnaryStreamMethod
+def canon_detail(d):
+    """a received detail, by ROLE: a protobuf message of a known type -> (type name, canonical bytes); anything else
+    is the codec's stand-in for a type the client does not know -> ('unknown', the type name it shows)"""
+    from google.protobuf.message import Message
+    if isinstance(d, Message):
+        return (type(d).DESCRIPTOR.full_name, d.SerializeToString(deterministic=True))
+    names = [v for v in getattr(d, '__dict__', {}).values() if isinstance(v, str)]
+    if len(names) == 1:
+        return ('unknown', names[0])
+    import re
+    m = re.search(r"""['"]([^'"]*)['"]""", repr(d))
+    return ('unknown', m.group(1) if m else repr(d))
+
+
+def open_pair(loop, services, sdc, cutter):
+    """real Channel <-> real Server protocol over a byte link with re-cut delivery, wired the way
+    grpclib.testing.ChannelFor wires its pair.  Returns (channel, link), or (None, None) when that private wiring is
+    not there any more -- the caller then falls back to the public ChannelFor (no re-cutting)."""
+    from grpclib.client import Channel
     from grpclib.server import Server
+    try:
+        server = Server(services, codec=RawCodec(), status_details_codec=sdc)
+        channel = Channel(codec=RawCodec(), status_details_codec=sdc)
+        sproto = server._protocol_factory()
+        cproto = channel._protocol_factory()
+        link = wire.Link(loop, cproto, sproto, cutter)
+        cproto.connection_made(link.ta)
+        sproto.connection_made(link.tb)
+        channel._protocol = cproto
+        if not hasattr(channel, '__connect__'):
+            raise AttributeError('__connect__')
+        return channel, link
+    except (AttributeError, TypeError):
+        return None, None
+
+
+def run_pair(services, sdc, cut, card, body):
+    """run `body(stream, got)` inside `async with method.open()` against the services; -> (outcome, got, extra)"""
+    import asyncio
+    with vloop.session() as loop:
+        channel, link = open_pair(loop, services, sdc, make_cutter(cut))
+        got = {'replies': []}
+        res = {}
+
+        async def inner(ch):
+            m = lc_method(ch, card)
+            try:
+                async with m.open() as s:
+                    got['stream'] = s
+                    await body(s, got)
+                res['o'] = ('ok', None)
+            except asyncio.CancelledError:
+                raise
+            except BaseException as e:
+                res['o'] = ('exc', e)
+
+        async def outer():
+            from grpclib.testing import ChannelFor
+            async with ChannelFor(services, codec=RawCodec(), status_details_codec=sdc) as ch:
+                await inner(ch)
+        loop.create_task(inner(channel) if channel is not None else outer())
+        quiet = loop.run_quiet(20)
+        extra = {'quiet': quiet,
+                 'conn_alive': None if link is None else (not link.ta.lost and not link.tb.lost)}
+    return res.get('o', ('pending',)), got, extra
+
+
+def e2e(case):
+    """a handler reports (status, message, details) -- by raising GRPCError (or a user subclass) or by
+    send_trailing_metadata -- through a real Server protocol, a byte link with re-cut delivery and a real Channel;
+    ProtoStatusDetailsCodec on both sides.  Returns the canonical observation at the client plus the bytes the two
+    codecs saw."""
     from grpclib.const import Status
-    from grpclib.exceptions import GRPCError
-    from grpclib.encoding.proto import _Unknown
     _quiet()
     st = Status(case['st'])
     msg = None if case['msg'] is None else uncpl(case['msg'])
@@ -592,62 +656,29 @@ def e2e(case):
     # user trailing metadata next to the status (only send_trailing_metadata can pass it)
     md = [(k, unj(v)) for k, v in case['md']] if case.get('md') and how.startswith('send') else None
     log = []
-    with vloop.session() as loop:
-        async def handler(stream):
-            await stream.recv_message()
-            if how == 'raise':
-                raise make_error(case.get('exc'), st, msg, details)
-            if how == 'raise-after-message' or how == 'raise-stream':
-                await stream.send_message(b'r')
-                raise make_error(case.get('exc'), st, msg, details)
-            if how == 'send-after-message' or how == 'send-stream':
-                await stream.send_message(b'r')
-            await stream.send_trailing_metadata(status=st, status_message=msg, status_details=details, metadata=md)
-        codec = recording_proto_codec(log)
-        server = Server([Service('v.S', {'M': (handler, card)})], codec=RawCodec(), status_details_codec=codec)
-        channel = Channel(codec=RawCodec(), status_details_codec=codec)
-        sproto = server._protocol_factory()
-        cproto = channel._protocol_factory()
-        link = wire.Link(loop, cproto, sproto, make_cutter(case.get('cut')))
-        cproto.connection_made(link.ta)
-        sproto.connection_made(link.tb)
-        channel._protocol = cproto
-        cls = UnaryStreamMethod if card == 'US' else UnaryUnaryMethod
-        m = cls(channel, '/v.S/M', bytes, bytes)
-        got = {'replies': []}
 
-        async def call():
-            async with m.open() as s:
-                got['stream'] = s
-                await s.send_message(b'q', end=True)
-                if card == 'US':
-                    async for r in s:
-                        got['replies'].append(r)
-                else:
-                    got['replies'].append(await s.recv_message())
-                await s.recv_trailing_metadata()
-        t = loop.create_task(call())
-        quiet = loop.run_quiet(20)
-        tm = getattr(got.get('stream'), 'trailing_metadata', None)
-        got['tm'] = None if tm is None else list(tm.items())
-        o = vloop.outcome(t)
-        conn_alive = not link.ta.lost and not link.tb.lost
-    obs = {'outcome': o[0], 'quiet': quiet, 'conn_alive': conn_alive, 'replies': len(got['replies'])}
-    if o[0] == 'exc':
-        e = o[1]
-        obs['exc'] = type(e).__name__
-        if isinstance(e, GRPCError):
-            obs['status'] = e.status.value
-            obs['message'] = None if e.message is None else cpl(e.message)
-            if e.details is None:
-                obs['details'] = None
-            else:
-                obs['details'] = [('unknown', d._name) if isinstance(d, _Unknown)
-                                  else (type(d).DESCRIPTOR.full_name, d.SerializeToString(deterministic=True))
-                                  for d in e.details]
-    obs['codec_log'] = log
-    obs['tm'] = got.get('tm')
-    return obs, details
+    async def handler(stream):
+        await stream.recv_message()
+        if how == 'raise':
+            raise make_error(case.get('exc'), st, msg, details)
+        if how == 'raise-after-message' or how == 'raise-stream':
+            await stream.send_message(b'r')
+            raise make_error(case.get('exc'), st, msg, details)
+        if how == 'send-after-message' or how == 'send-stream':
+            await stream.send_message(b'r')
+        await stream.send_trailing_metadata(status=st, status_message=msg, status_details=details, metadata=md)
+
+    async def body(s, got):
+        await s.send_message(b'q', end=True)
+        if card == 'US':
+            async for r in s:
+                got['replies'].append(r)
+        else:
+            got['replies'].append(await s.recv_message())
+        await s.recv_trailing_metadata()
+    o, got, extra = run_pair([Service('v.S', {'M': (handler, card)})], recording_proto_codec(log), case.get('cut'),
+                             card, body)
+    return lc_observe(o, got, log, extra), details
 
 
 # ---- end to end: the call life-cycle matrix ----------------------------------------------------------
@@ -723,17 +754,14 @@ def lc_method(channel, card):
 
 def lc_observe(o, got, log, extra):
     from grpclib.exceptions import GRPCError
-    from grpclib.encoding.proto import _Unknown
     obs = dict(extra, outcome=o[0], replies=len(got['replies']))
     if o[0] == 'exc':
         e = o[1]
-        obs['exc'] = type(e).__name__
+        obs['exc'] = 'GRPCError' if isinstance(e, GRPCError) else type(e).__name__
         if isinstance(e, GRPCError):
             obs['status'] = e.status.value
             obs['message'] = None if e.message is None else cpl(e.message)
-            obs['details'] = None if e.details is None else [
-                ('unknown', d._name) if isinstance(d, _Unknown)
-                else (type(d).DESCRIPTOR.full_name, d.SerializeToString(deterministic=True)) for d in e.details]
+            obs['details'] = None if e.details is None else [canon_detail(d) for d in e.details]
     obs['codec_log'] = log
     tm = getattr(got.get('stream'), 'trailing_metadata', None)
     obs['tm'] = None if tm is None else list(tm.items())
@@ -742,10 +770,7 @@ def lc_observe(o, got, log, extra):
 
 def e2e_lifecycle(case):
     """real server <-> real client; the handler reports an error at a chosen point of the call"""
-    from grpclib.client import Channel
-    from grpclib.server import Server
     from grpclib.const import Status
-    from grpclib.exceptions import GRPCError
     _quiet()
     st = Status(case['st'])
     msg = None if case['msg'] is None else uncpl(case['msg'])
@@ -753,34 +778,20 @@ def e2e_lifecycle(case):
     details = None if specs is None else [build_detail(s) for s in specs]
     how = case.get('how', 'raise')
     log = []
-    with vloop.session() as loop:
-        async def handler(stream):
-            if case.get('srv') == 'read-reply':
-                await stream.recv_message()
-                await stream.send_message(b'r')
-            if how == 'raise':
-                raise make_error(case.get('exc'), st, msg, details)
-            await stream.send_trailing_metadata(status=st, status_message=msg, status_details=details)
-        codec = recording_proto_codec(log)
-        server = Server([Service('v.S', {'M': (handler, case['card'])})], codec=RawCodec(), status_details_codec=codec)
-        channel = Channel(codec=RawCodec(), status_details_codec=codec)
-        sproto = server._protocol_factory()
-        cproto = channel._protocol_factory()
-        link = wire.Link(loop, cproto, sproto, make_cutter(case.get('cut')))
-        cproto.connection_made(link.ta)
-        sproto.connection_made(link.tb)
-        channel._protocol = cproto
-        m = lc_method(channel, case['card'])
-        got = {'replies': []}
 
-        async def call():
-            async with m.open() as s:
-                await lc_client_body(s, case, got)
-        t = loop.create_task(call())
-        quiet = loop.run_quiet(20)
-        o = vloop.outcome(t)
-        obs = lc_observe(o, got, log, {'quiet': quiet, 'conn_alive': not link.ta.lost and not link.tb.lost})
-    return obs, details
+    async def handler(stream):
+        if case.get('srv') == 'read-reply':
+            await stream.recv_message()
+            await stream.send_message(b'r')
+        if how == 'raise':
+            raise make_error(case.get('exc'), st, msg, details)
+        await stream.send_trailing_metadata(status=st, status_message=msg, status_details=details)
+
+    async def body(s, got):
+        await lc_client_body(s, case, got)
+    o, got, extra = run_pair([Service('v.S', {'M': (handler, case['card'])})], recording_proto_codec(log),
+                             case.get('cut'), case['card'], body)
+    return lc_observe(o, got, log, extra), details
 
 
 def e2e_peer(case):
@@ -1018,11 +1029,9 @@ def oracle_dec(v, impl):
 
 # ---- the batches ------------------------------------------------------------------------------------
 
-def check_pure(ctx, res, encs, decs, u8ds, sts):
+def check_pure(ctx, res, encs, decs, u8ds):
     lines = ['enc ' + w_cps(m) for m in encs] + ['dec ' + w_cps(v) for v in decs] + \
-            ['u8d ' + w_hex(b) for b in u8ds] + ['unq ' + w_hex(b) for b in u8ds] + \
-            [' '.join(['st', '1' if c else '0', str(len(hs))] + [w for k, v in hs for w in (w_cps(cpl(k)), w_cps(cpl(v)))])
-             for c, hs in sts]
+            ['u8d ' + w_hex(b) for b in u8ds] + ['unq ' + w_hex(b) for b in u8ds]
     model = ctx.model(lines) if ctx.model_ok else None
     i = 0
     for m in encs:
@@ -1073,29 +1082,6 @@ def check_pure(ctx, res, encs, decs, u8ds, sts):
             if ascii_only and r_hex(model[i + len(u8ds) + j]) != impl_unq:
                 res.disagreements.append({'case': {'op': 'unq', 'b': bytes(b)}, 'model': model[i + len(u8ds) + j],
                                           'impl': impl_unq})
-    i += 2 * len(u8ds)
-    for c, hs in sts:
-        impl = impl_process(c, hs)
-        res.evaluations += 1
-        res.count('client-parse:' + impl[0])
-        res.signatures.add(('st', c, tuple((k, len(v)) for k, v in hs)))
-        res.sample({'op': '_process_grpc_status', 'headers': hs, 'impl': impl}, limit=12)
-        non_ascii_status = any(k == K_STATUS and any(ord(ch) > 127 for ch in v) for k, v in hs) and \
-            any(ord(ch) > 127 for ch in dict(hs).get(K_STATUS, ''))
-        if model is not None:
-            res.traces += 1
-            mm = parse_model_status(model[i])
-            if mm == ('unmodelled',):
-                res.count('client-parse:model-abstains')
-                if not non_ascii_status:
-                    res.disagreements.append({'case': {'op': 'st', 'codec': c, 'hs': hs}, 'model': mm, 'impl': impl})
-            elif mm != impl:
-                res.disagreements.append({'case': {'op': 'st', 'codec': c, 'hs': hs}, 'model': mm, 'impl': impl})
-        if impl[0] in ('exc', 'raised'):
-            res.oracle_failures.append({'case': {'op': 'st', 'codec': c, 'hs': hs},
-                                        'what': 'status processing raised %r' % (impl,),
-                                        'signature': {'op': 'st', 'kind': 'raises'}, 'observed': impl})
-        i += 1
 
 
 def check_trailers(ctx, res, cases):
@@ -1146,7 +1132,7 @@ def check_receive(ctx, res, cases):
     for i, c in enumerate(cases):
         impl = impl_receive(c)
         res.evaluations += 1
-        res.count('client-receive:' + impl[0])
+        res.count(('client-status-processing:' if c.get('from') == 'st' else 'client-receive:') + impl[0])
         res.signatures.add(('rcv', c.get('layout'), tuple((bytes(unj(k)), bytes(unj(v))[:8]) for k, v in c['hs'])))
         res.sample({'op': 'client receives trailers', 'case': c, 'impl': impl}, limit=6)
         if model is not None:
@@ -1161,6 +1147,12 @@ def check_receive(ctx, res, cases):
                 impl_cmp = impl
             if m != impl_cmp:
                 res.disagreements.append({'case': dict(c, op='rcv'), 'model': m, 'impl': impl})
+        # oracle: an ASCII trailers block, however malformed its values, ends the call normally or with a GRPCError
+        all_ascii = all(x < 128 for k, v in c['hs'] for x in bytes(unj(k)) + bytes(unj(v)))
+        if all_ascii and impl[0] not in ('ok', 'status', 'missing', 'invalid'):
+            res.oracle_failures.append({'case': dict(c, op='rcv'), 'signature': {'op': 'rcv', 'kind': 'not-a-grpc-outcome'},
+                                        'what': 'an ASCII trailers block made the call end with %r' % (impl,),
+                                        'observed': impl})
         # oracle: whatever grpc-message / details bytes arrive, the call ends with the status that was sent
         d = dict((bytes(unj(k)), bytes(unj(v))) for k, v in c['hs'])
         sent = d.get(b'grpc-status', b'')
@@ -1258,7 +1250,8 @@ def run(ctx):
                 "to '%', CR/LF, NUL, DEL, non-BMP, combining marks and text that looks like an escape; received values "
                 'built from valid (upper/lower case) and broken escapes, overlong / surrogate / >10FFFF / truncated UTF-8 '
                 'and raw non-ASCII characters; all byte strings of length 1..2 over 26 boundary bytes for the UTF-8 decoder; '
-                '(b) _process_grpc_status on PRNG header lists (grpc-status spellings, duplicates, malformed base64); '
+                '(b) the client status processing on PRNG trailer blocks (grpc-status spellings, duplicates, malformed base64) sent '
+                'by a scripted server to a real Channel; '
                 '(c) real server in front of a scripted peer: every Status member x {raise, send, send-after-message} x '
                 'message classes; (d) real client behind a scripted server: fixed malformed grpc-message byte strings x 2 '
                 'layouts + PRNG; (e) real client <-> real server with re-cut delivery and ProtoStatusDetailsCodec: every '
@@ -1270,7 +1263,7 @@ def run(ctx):
                 'scripted server (trailers-only / full response, then nothing / RST_STREAM / GOAWAY / connection loss); '
                 'quick = PRNG half of the cells, thorough = all. '
                 'distinct = distinct (op, status, how, message class, detail kinds / header shape) signature')
-    encs, decs, u8ds, sts, trs, rcvs, e2es = [], [], [], [], [], [], []
+    encs, decs, u8ds, trs, rcvs, e2es = [], [], [], [], [], []
     for c in ctx.corpus() + [h for h in getattr(ctx, 'hints', []) if isinstance(h, dict)]:
         c = expand(c)
         op = c.get('op')
@@ -1281,7 +1274,7 @@ def run(ctx):
         elif op in ('u8d', 'unq'):
             u8ds.append(unj(c['b']))
         elif op == 'st':
-            sts.append((c.get('codec', True), [tuple(h) for h in c['hs']]))
+            rcvs.append(st_case(c.get('codec', True), [tuple(h) for h in c['hs']]))
         elif op == 'tr':
             trs.append(c)
         elif op == 'rcv':
@@ -1302,11 +1295,12 @@ def run(ctx):
     for _ in range(n):
         u8ds.append(gen_bytes_utf8ish(rng))
     # (b)
+    check_pure(ctx, res, encs, decs, u8ds)
     for s in status_members():
-        sts.append((True, [(K_STATUS, str(s.value)), (K_MESSAGE, 'm%25'), (K_DETAILS, 'Cv8')]))
-    for _ in range(n // 2):
-        sts.append((rng.random() < 0.8, gen_client_headers(rng)))
-    check_pure(ctx, res, encs, decs, u8ds, sts)
+        rcvs.append(st_case(True, [(K_STATUS, str(s.value)), (K_MESSAGE, 'm%25'), (K_DETAILS, 'Cv8')],
+                            'trailers' if s.value == 0 else rng.choice(['trailers', 'only'])))
+    for _ in range(n // 4):
+        rcvs.append(st_case(rng.random() < 0.8, gen_client_headers(rng)))
     # (c)
     fixed_msgs = [None, [], cpl('100% é\r\n'), cpl('\U0001f600 %41 \x00\x7f'), [0xd800]]
     for s in status_members():
@@ -1349,13 +1343,13 @@ def replay(ctx, case):
     c = expand(case)
     op = c.get('op')
     if op == 'enc':
-        check_pure(ctx, res, [c['s']], [], [], [])
+        check_pure(ctx, res, [c['s']], [], [])
     elif op == 'dec':
-        check_pure(ctx, res, [], [c['s']], [], [])
+        check_pure(ctx, res, [], [c['s']], [])
     elif op in ('u8d', 'unq'):
-        check_pure(ctx, res, [], [], [unj(c['b'])], [])
+        check_pure(ctx, res, [], [], [unj(c['b'])])
     elif op == 'st':
-        check_pure(ctx, res, [], [], [], [(c.get('codec', True), [tuple(h) for h in c['hs']])])
+        check_receive(ctx, res, [st_case(c.get('codec', True), [tuple(h) for h in c['hs']])])
     elif op == 'tr':
         check_trailers(ctx, res, [c])
     elif op == 'rcv':
